@@ -1,6 +1,8 @@
 import HgVerif.Model.Delta
+import HgVerif.Model.Recover
 import HgVerif.Driver.Proto
-/-! Model driver for C20: same line protocol as `harness/drv_replay.cpp` (grammar: `harness/replay_text.h`).
+/-! Model driver for C20: same line protocol as `harness/drv_replay.cpp` (grammar: `harness/replay_text.h`) and,
+for the recover / as-of stream, as `harness/drv_recover.cpp` (ops `record`, `asof`, `onetime`, `replay`, `values`).
 
 The model's key universe is `{0 … 9}` (`U`): set elements and dictionary keys are `0..9` (`Int`) or
 `s0..s9` (`Str`); bundle fields are named positionally `a, b, c, …`. -/
@@ -248,11 +250,77 @@ def showBuf (s : Shape) (tag : String) (buf : Buffer s) : String :=
     | _ => none
   s!"{tag} n={buf.length}" ++ String.join ticks
 
+/-! ### canonical text of VALUES (`Value{ts.value()}`, `print_value` of `harness/drv_recover.cpp`)
+
+A copied value keeps validity only for bundle fields; elsewhere a never-valid position reads as the default of
+its value type (`0`, the empty string, `F`, an empty set / dictionary, a window of zeros); a window is its
+whole ring of `period` elements, oldest first, zero padded. -/
+def showV1L : (s : Shape) → Nat → V1 s → List String
+  | .ts k, _, st =>
+      let st : Option Nat := st
+      [match st with | some v => showScalar k v | none => if k then "" else "0"]
+  | .signal, _, st =>
+      let st : Bool := st
+      [if st then "T" else "F"]
+  | .tsw k p, _, st =>
+      let w : List Nat := st.1
+      ["<" ++ String.intercalate ";" ((w ++ List.replicate (p - w.length) 0).map (showScalar k)) ++ ">"]
+  | .tss k _, _, st =>
+      let es : List Bool := st.2
+      ["{" ++ joinC ((trues es).map (showScalar k)) ++ "}"]
+  | .tsd k _ v, _, st =>
+      let sl : List (Slot (V1 v)) := st.2
+      ["{" ++ joinC ((List.range sl.length).filterMap fun i => match sl[i]? with
+          | some (Slot.live c) => some (showScalar k i ++ "=" ++ joinC (showV1L v 0 c))
+          | _ => none) ++ "}"]
+  | .tsl e _, _, st =>
+      let st : List (V1 e) := st
+      ["[" ++ joinC (st.map fun c => joinC (showV1L e 0 c)) ++ "]"]
+  | .tsb fs, _, st => ["(" ++ joinC (showV1L fs 0 st) ++ ")"]
+  | .bnil, _, _ => []
+  | .bcons f r, i, st =>
+      (fieldName i ++ "=" ++ (if valid1 f st.1 then joinC (showV1L f 0 st.1) else "_")) :: showV1L r (i + 1) st.2
+
+def showV1 (s : Shape) (st : V1 s) : String := joinC (showV1L s 0 st)
+
+/-- an optional value (`-` = none) -/
+def showOptVal (s : Shape) : Option (St s) → String
+  | some st => showV1 s (toV1 s st)
+  | none => "-"
+
+def showRec (s : Shape) (tag : String) (rec : Recording s) : String :=
+  tag ++ String.join (rec.map fun e => s!" {e.1}:{showDl s e.2}")
+
+/-- the cycles the as-of read is asked for: `0 … last recorded cycle + 2` -/
+def asofCycles {s : Shape} (rec : Recording s) : List Nat :=
+  List.range ((match rec.getLast? with | some e => e.1 | none => 0) + 3)
+
+def showAsof {s : Shape} (rec : Recording s) (live : List (Nat × St s)) : String :=
+  "asof" ++ String.join ((asofCycles rec).map fun c =>
+    let got := showOptVal s (resolve rec c)
+    let lv := showOptVal s (liveAt live c)
+    s!" {c}:{got}|{lv}|" ++ (if got == lv then "=" else "!"))
+
+def showOneTime {s : Shape} (rec : Recording s) : String :=
+  "onetime" ++ String.join ((asofCycles rec).map fun c =>
+    s!" {c}:" ++ (match recoverOneView rec c with
+      | some st => if valid1 s st then showV1 s st else "-"
+      | none => "err:logic"))
+
+def showVals {s : Shape} (l1 l2 : List (Nat × St s)) : String :=
+  let cycles := (l1.map (·.1) ++ (l2.map (·.1)).filter fun c => !(l1.map (·.1)).contains c).mergeSort
+  let at_ (l : List (Nat × St s)) (c : Nat) : String := match l.find? (·.1 == c) with
+    | some e => showOptVal s (some e.2)
+    | none => "-"
+  "vals" ++ String.join (cycles.map fun c => s!" {c}:{at_ l1 c}|{at_ l2 c}")
+
 /-! ### the driver -/
 structure Run (s : Shape) where
   ticks : List (Nat × Dl s) := []          -- (cycle, delta), cycles strictly increasing
   run1 : Option (Buffer s × St s) := none
   run2 : Option (Buffer s × St s) := none
+  srun1 : Option (Recording s × List (Nat × St s)) := none     -- recover stream: graph 1 (recording, probe)
+  srun2 : Option (Recording s × List (Nat × St s)) := none     -- recover stream: graph 2
 
 structure DS where
   sch : Option (Σ s : Shape, Run s) := none
@@ -319,6 +387,42 @@ def step (d : DS) (ws : List String) : DS × String :=
       match d.sch with
       | none => (d, "err:schema")
       | some ⟨_, r⟩ => (d, direct r.ticks)
+  | ["record"] =>
+      match d.sch with
+      | none => (d, "err:schema")
+      | some ⟨s, r⟩ =>
+          let res := recordSparse (seedOf r.ticks)
+          ({ sch := some ⟨s, { r with srun1 := some res, srun2 := none }⟩ }, showRec s "srec" res.1)
+  | ["asof"] =>
+      match d.sch with
+      | some ⟨_, r⟩ =>
+        (match r.srun1 with
+         | some r1 => (d, showAsof r1.1 r1.2)
+         | none => (d, "err:norun"))
+      | none => (d, "err:norun")
+  | ["onetime"] =>
+      match d.sch with
+      | some ⟨_, r⟩ =>
+        (match r.srun1 with
+         | some r1 => (d, showOneTime r1.1)
+         | none => (d, "err:norun"))
+      | none => (d, "err:norun")
+  | ["replay"] =>
+      match d.sch with
+      | some ⟨s, r⟩ =>
+        (match r.srun1 with
+         | some r1 =>
+            let res := replaySparse r1.1
+            ({ sch := some ⟨s, { r with srun2 := some res }⟩ }, showRec s "srec2" res.1)
+         | none => (d, "err:norun"))
+      | none => (d, "err:norun")
+  | ["values"] =>
+      match d.sch with
+      | some ⟨_, r⟩ =>
+        (match r.srun1, r.srun2 with
+         | some r1, some r2 => (d, showVals r1.2 r2.2)
+         | _, _ => (d, "err:norun"))
+      | none => (d, "err:norun")
   | [] => (d, "")
   | _ => (d, "bad-op")
 
